@@ -13,6 +13,8 @@ import (
 	"go/constant"
 	"go/token"
 	"go/types"
+	"sort"
+	"strings"
 )
 
 type vkind int
@@ -25,6 +27,7 @@ const (
 	vTuple         // Tup
 	vFunc          // Lit or FnObj: a function value
 	vList          // Tup: known list (variadic argument)
+	vStruct        // Fields: a struct value built by a literal with known field values
 )
 
 type Value struct {
@@ -38,6 +41,7 @@ type Value struct {
 	FnObj *types.Func
 	T     types.Type // static type of the expression that produced the value, when known
 	Recv  *Value     // receiver of a bound method value (x.m taken as a value)
+	Fields map[string]Value
 }
 
 func unknownV() Value               { return Value{K: vUnknown} }
@@ -62,6 +66,17 @@ func (v Value) String() string {
 			return "func:" + funcName(v.FnObj)
 		}
 		return "funclit"
+	case vStruct:
+		var ks []string
+		for k := range v.Fields {
+			ks = append(ks, k)
+		}
+		sort.Strings(ks)
+		var fs []string
+		for _, k := range ks {
+			fs = append(fs, k+":"+v.Fields[k].String())
+		}
+		return "{" + strings.Join(fs, " ") + "}"
 	}
 	return "?"
 }
@@ -1101,9 +1116,15 @@ func (in *Interp) eval(st *State, e ast.Expr) []valState {
 			}
 			return one(st, Value{K: vFunc, FnObj: f})
 		}
-		// evaluate the operand for its effects (calls inside)
+		// evaluate the operand for its effects (calls inside); a field of a known struct value is that value
 		var out []valState
 		for _, vs := range in.eval(st, e.X) {
+			if vs.v.K == vStruct {
+				if fv, ok := vs.v.Fields[e.Sel.Name]; ok {
+					out = append(out, valState{vs.st, fv})
+					continue
+				}
+			}
 			out = append(out, valState{vs.st, Value{K: vUnknown, T: in.c.typeOf(e)}})
 		}
 		return out
@@ -1272,6 +1293,32 @@ func (in *Interp) eval(st *State, e ast.Expr) []valState {
 			for _, a := range in.evalArgs(st, exprs) {
 				in.h.StructLit(in, a.st, e, names, a.vals)
 				out = append(out, valState{a.st, Value{K: vUnknown, T: in.c.typeOf(e)}})
+			}
+			return out
+		}
+		if stt, ok := in.c.typeOf(e).Underlying().(*types.Struct); ok && len(e.Elts) > 0 {
+			// a struct value with known fields
+			var names []string
+			for i, el := range e.Elts {
+				name := ""
+				if kv, ok := el.(*ast.KeyValueExpr); ok {
+					if id, ok := kv.Key.(*ast.Ident); ok {
+						name = id.Name
+					}
+				} else if i < stt.NumFields() {
+					name = stt.Field(i).Name()
+				}
+				names = append(names, name)
+			}
+			var out []valState
+			for _, a := range in.evalArgs(st, exprs) {
+				v := Value{K: vStruct, T: in.c.typeOf(e), Fields: map[string]Value{}}
+				for i, n := range names {
+					if n != "" && i < len(a.vals) {
+						v.Fields[n] = a.vals[i]
+					}
+				}
+				out = append(out, valState{a.st, v})
 			}
 			return out
 		}
